@@ -98,6 +98,23 @@ def make_data(call, w, p, content):
         f = io.BytesIO(content)
         f.seek(call.off)
         return f, f
+    if kind == "written":
+        # a file of the caller's own that it has just written through this very handle and not flushed: the
+        # handle is at the end of the data, part of which is still in its buffer
+        wp = p + ".written"
+        if w.mode != "native":
+            w.F.b.create(symfs.FS.p(wp), content[:max(0, len(content) - 3)])
+            f = symfs.FakeFile.__new__(symfs.FakeFile)
+            f._fs, f.name, f.mode, f._text = w.F, symfs.FS.p(wp), "w+b", False
+            f._pending, f._pos, f._writable, f._append, f._closed, f._orphan = [], len(content), True, False, False, False
+            if len(content) > 0:
+                f._pending = [(max(0, len(content) - 3), content[max(0, len(content) - 3):])]
+            w.F.handles.append(f)
+        else:
+            f = open(wp, "w+b")
+            f.write(content)
+        call.off = len(content)
+        return f, f
     if kind == "decoder":
         # a buffered reader whose `name` is not where its bytes come from (gzip.open(), a decrypting or
         # transcoding reader ...): `name` is an existing file with other content and another size
@@ -258,7 +275,17 @@ class DeleteIfInvalid(Call):
         c = w.contents[self.k]
         om = w.module().ObjectMetadata("HashStoreNoPid", w.real_cids[self.k], len(c),
                                        {a: hashlib.new(a, c).hexdigest() for a in FIVE})
+        self.om = om
         return s.delete_if_invalid_object(om, self.checksum, self.calgo, self.size)
+
+    def check_value(self, w, ps, val, res):
+        # the descriptor is the caller's (it is what store_object returned earlier): the verdict call does not edit it
+        om = getattr(self, "om", None)
+        c = w.contents[self.k]
+        if om is not None and (dict(om.hex_digests) != {a: hashlib.new(a, c).hexdigest() for a in FIVE}
+                               or om.obj_size != len(c) or om.cid != w.real_cids[self.k]):
+            return [("descriptor-returned-by-an-earlier-store-was-modified", sorted(om.hex_digests))]
+        return []
 
     def model(self, w, pre):
         cases, post = w.m_delete_if_invalid(pre, self.k, self.invalid)
@@ -675,7 +702,8 @@ def run_step(ps, w, menu, extra_assume=None):
         if mut:
             bad.append(("rejected-or-read-only-call-mutated", mut[:3]))
     if w.F is not None:
-        esc = [t for t in trace if t[0] in symfs.MUTATING and t[1] != "fd" and not CONTAINED.match(t[1])]
+        esc = [t for t in trace if t[0] in symfs.MUTATING and t[1] != "fd" and not CONTAINED.match(t[1])
+               and not t[1].endswith(".written")]       # (flushing the caller's own handle writes the caller's file)
         if esc:
             bad.append(("path-outside-store-or-not-hash-derived", esc[:3]))
     else:
@@ -799,7 +827,13 @@ def alias_native(what, files=None):
             for name, data in (("fa", b"AAAA"), ("fb", b"BBBB")):
                 with open(root + "/" + name, "wb") as fh:
                     fh.write(data)
-            if a[0] == "pid":
+            if a[0] == "cid":
+                # two different cids each get a reference list of their own
+                s.tag_object("alias-probe-1", a[1])
+                s.tag_object("alias-probe-2", b[1])
+                lists = [os.path.join(dp, f) for dp, _d, fs in os.walk(s.cids) for f in fs]
+                out.append((a[1][:16], b[1][:16], len(lists) == 2, "%d reference list(s) for two cids" % len(lists)))
+            elif a[0] == "pid":
                 s.store_object(a[1], root + "/fa")
                 try:
                     s.store_object(b[1], root + "/fb")
